@@ -85,6 +85,8 @@ class Env:
         return t
 
     def mk_proto(self, ctx, state="any", transport="present"):
+        # several modules may share one engine (C14, C18, C09 add these events to their own targets): the loop a SERVER event sees
+        self.E.models["asyncio.get_running_loop"] = self._get_loop
         """state: 'fresh' (after __init__) or 'any' (arbitrary state satisfying INV);
         transport: 'present' or 'maybe' (connection may already be lost)."""
         handler = ctx.alloc(HANDLER, {})
@@ -293,7 +295,8 @@ class Env:
         M[(TRANSPORT, "get_extra_info")] = t_extra
 
         # timers / loop / tasks
-        M["asyncio.get_running_loop"] = lambda ctx, a, k: (E.use_assumption("E1: server protocol callbacks run inside a running event loop (the RuntimeError branches are unreachable in a server)"), ctx.alloc(LOOP, {}))[1]
+        self._get_loop = lambda ctx, a, k: (E.use_assumption("E1: server protocol callbacks run inside a running event loop (the RuntimeError branches are unreachable in a server)"), ctx.alloc(LOOP, {}))[1]
+        M["asyncio.get_running_loop"] = self._get_loop
 
         def call_later(ctx, loop, args, kw):
             delay, cb = args[0], args[1]
